@@ -24,7 +24,7 @@ tracer.build_recovery_index()
 core._quiet(module.warm)
 master = core.master_seed(prop, "quick", seed)
 runs = []
-for lanes_n, order in ((16, 1), (5, -1)):
+for lanes_n, order in ((getattr(module, "LANES", 16), 1), (max(2, getattr(module, "LANES", 16) // 3), -1)):
     lanes = core.Lanes(module, n=lanes_n)
     try:
         res, _ = lanes.map_episodes(prop, master, "quick", list(range(n))[::order], keep_log=True)
